@@ -423,6 +423,55 @@ def check(ctx):
                                   (nm, 'not written' if nm not in wl else 'written but not read'))
         ctx.guard('vi.members', wsite, r_members)
 
+        def r_verbatim(g=g, base=base):
+            # what the reader stores is what it read: a member restored from the text may be a token,
+            # a container of tokens or a copy of a sub-object, but not the result of arithmetic on
+            # tokens (re-normalising, rounding, clamping ...) - the written values round-trip exactly,
+            # f(written value) does not have to
+            th = g.rthis
+            rec = g.record
+            if th is None:
+                raise AnalysisBroken('reader state of %s not available' % base)
+            is_input = lambda t: isinstance(t, tuple) and t and t[0] == 'input'
+            bad = []
+
+            def walk(t, in_size=False):
+                if not isinstance(t, tuple) or not t:
+                    return
+                k = t[0]
+                if k in ('+', '-', '*', '/', 'neg', 'fn', 'idiv', 'imod', 'trunc', 'sum', 'prod') and not in_size:
+                    if T.contains(t, is_input):
+                        bad.append(t)
+                    return
+                if k == 'vresize' and len(t) >= 3:
+                    walk(t[1])
+                    return
+                if k in ('vcomp', 'vcomp2', 'vmap'):
+                    # loop bounds / counts are sizes, not stored values
+                    walk(t[1])
+                    walk(t[-1])
+                    return
+                if k in ('vzeros', 'vfill') and len(t) >= 2:
+                    for c in t[2:]:
+                        walk(c)
+                    return
+                for c in t[1:]:
+                    walk(c)
+            for fdef in rec.fields:
+                nm = fdef['name']
+                before = len(bad)
+                walk(fld(th, nm))
+                w = '%s:%s' % (fsite(g.rfunc), nm)
+                if len(bad) > before:
+                    ctx.violation('vii.reader_verbatim', w, 'member %s of the reloaded object is computed from the '
+                                  'tokens read (%s) instead of being the value read: text -> object is not the '
+                                  'inverse of object -> text' % (nm, T.pretty(bad[before])[:160]),
+                                  {'stored': T.pretty(fld(th, nm))[:300]})
+                else:
+                    ctx.holds('vii.reader_verbatim', w, 'member %s is restored verbatim from the text (or from a '
+                              'sub-object read from it)' % nm)
+        ctx.guard('vii.reader_verbatim', wsite, r_verbatim)
+
     ctx.counts['floating-point << sites examined'] = nfloat[0]
     if nfloat[0] < 14:
         ctx.broken('gate', 'floating-point << sites', 'only %d floating-point fields found, 14 confirmed by hand' % nfloat[0])
